@@ -182,13 +182,41 @@ def depth_label(ast):
     return f"depth:{d if d < 7 else '7+'}"
 
 
+FAMILIES = {
+    "fn:trig": {"sin", "cos", "tan", "sec", "cot"},
+    "fn:inverse-trig": {"asin", "acos", "atan"},
+    "fn:hyperbolic": {"sinh", "cosh", "tanh", "asinh", "acosh", "atanh"},
+    "fn:exp-log-root": {"exp", "exp2", "log", "sqrt", "cbrt"},
+    "fn:floor-ceiling": {"floor", "ceiling"},
+    "fn:Abs": {"Abs"},
+    "fn:erf": {"erf"},
+}
+OPERATOR_FORMS = {"div-as-pow", "sub-as-add-neg", "neg-as-mul"}
+
+
 def ast_labels(ast, alts=()):
-    labs = [depth_label(ast), "root:" + root_kind(ast)]
+    """compact classification (the evidence keeps the 40 most frequent labels per sub-check)"""
+    labs = [depth_label(ast)]
     kinds = G.kinds_of(ast)
-    if "call2:Mod" in kinds:
-        labs.append("mod:root" if ast[:2] == ["call2", "Mod"] else "mod:inner")
-    labs += sorted("k:" + k for k in kinds if k not in ("var", "num"))
-    labs += ["shape:" + a for a in alts]
+    called = {k.split(":")[1] for k in kinds if k.startswith("call:")}
+    labs += [fam for fam, names in FAMILIES.items() if called & names]
+    labs += [f"fn:{k.split(':')[1]}" for k in sorted(kinds) if k.startswith("call2:")]
+    if any(k.startswith("ufunc:") for k in kinds):
+        labs.append("fn:user-function")
+    for k, lab in (("heav", "fn:heaviside"), ("cmp", "top-level-comparison"), ("rpow", "op:real-power"),
+                   ("pow", "op:integer-power"), ("div", "op:division"), ("sub", "op:subtraction"),
+                   ("const", "uses:pi-or-E")):
+        if k in kinds:
+            labs.append(lab)
+    if G.has_nested_noncomm(ast):
+        labs.append("nested-non-commutative")
+    alts = set(alts)
+    if "parens" in alts:
+        labs.append("shape:redundant-parentheses")
+    if alts & OPERATOR_FORMS:
+        labs.append("shape:alternative-operator-form")
+    if alts - OPERATOR_FORMS - {"parens"}:
+        labs.append("shape:alternative-function-form")
     return labs
 
 
@@ -563,8 +591,7 @@ def check_tensor(case, backend="numpy", tolk=TOLK):
     labs = [f"route:{route}", f"tshape:{list(shape)}", f"layout:{case['args']['layout']}",
             f"sig:{case['sig']['mode']}", dev_label(worst)]
     for a in case["asts"][:2]:
-        labs += [l for l in ast_labels(a) if l.startswith("k:call")]
-    labs += ["shape:" + a for a in alts]
+        labs += [l for l in ast_labels(a, alts) if l.startswith(("fn:", "shape:"))]
     nt = judged > 0 and any(G.depth_of(a) >= 2 and any(k in G.NONCOMM for k in G.kinds_of(a))
                             for a in case["asts"]) and len(case["asts"]) >= 2
     return {"nt": nt, "labels": sorted(set(labs))}
@@ -616,7 +643,6 @@ def field_cases(draw):
     vs = [{"name": ax, "lo": b[0], "hi": b[1], "n": 0} for ax, b in zip(axes, bounds)]
     use_cart = draw(st.sampled_from([False, False, True]))
     extra_leaves = []
-    ranges = {}
     if use_cart:
         # Cartesian coordinates as indexed constant `cartesian[i]`
         if cls in ("unit", "cart"):
@@ -950,11 +976,21 @@ def check_evaluate(case, backend="numpy", tolk=TOLK):
     text, alts = G.render_info(ast, case["shape_seed"])
     ufs = G.user_funcs_of(ast)
     fields = pde.FieldCollection(list(fobjs.values())) if case["as_collection"] else fobjs
+    def call():
+        return run_generated(lambda: accept(
+            lambda: evaluate(text, fields, consts=dict(consts) or None, user_funcs=ufs or None,
+                             backend=backend, label=case["label"]), text, "evaluate"), text, "evaluate")
+
     try:
-        with time_limit(SIMPLIFY_LIMIT):
-            out = run_generated(lambda: accept(
-                lambda: evaluate(text, fields, consts=dict(consts) or None, user_funcs=ufs or None,
-                                 backend=backend, label=case["label"]), text, "evaluate"), text, "evaluate")
+        if backend == "numpy":
+            with time_limit(SIMPLIFY_LIMIT):
+                out = call()
+        else:
+            # never interrupt a JIT compilation with the alarm (it leaves LLVM in a broken state):
+            # only the sympy part is time-limited, by parsing the text once beforehand
+            with time_limit(SIMPLIFY_LIMIT):
+                ScalarExpression(text, user_funcs=ufs or None, consts=dict(consts) or None)
+            out = call()
     except _Timeout:
         return {"nt": False, "labels": ["simplify-timeout"]}
     key = f"evaluate:{backend}:{root_kind(ast)}"
